@@ -1,15 +1,20 @@
 (* C11 - Raw pixel load/store and iteration round-trip in both data orders.
    Statements only; every proof is `exact <lemma>` from Proofs/Rawdata.v.  Model: Model/Rawdata.v
-   (core/src/pixelcolor/raw/load_store.rs, raw/mod.rs, src/iterator/raw.rs as written, 64-bit usize).
+   (core/src/pixelcolor/raw/load_store.rs, raw/mod.rs, src/iterator/raw.rs as written).
+   The width of usize is a parameter: every theorem of the section below holds for EVERY instance U of the class
+   Usize (usize::MAX >= 65535), in particular usize16, usize32, usize64 (Model/Rawdata.v).
 
    Ranges: bytes_ok buf  = every element of the buffer is a byte (0..255);
-           len_ok buf    = 8 * length <= usize::MAX (any slice below 2 EiB; there `index + 1` and
+           len_ok buf    = 8 * length <= usize::MAX (64 bit: any slice below 2 EiB; there `index + 1` and
                            `len * pixels_per_byte`, unbounded in the model, cannot wrap);
            raw_ok t v    = v < 2^bits (what RawUx::new / from_u32 / into_inner produce);
            indices are non-negative (usize).  The out-of-range theorems need none of these and hold for
            EVERY index, including those whose byte offset index * N leaves usize (checked_mul). *)
 From EG Require Import Base.Prelude Model.Rawdata Proofs.Rawdata.
 From EG Require Model.Imageraw Proofs.Imagebridge.
+
+Section AnyUsize.
+Context {U : Usize}.
 
 (* store then load returns the value; the buffer keeps its length and stays a byte buffer *)
 Theorem C11_load_store : forall t alt v buf i,
@@ -139,13 +144,17 @@ Theorem C11_any_mix_of_next_and_nth : forall t alt ops s l,
   it_ok s -> iter_list t alt s = Some l -> Forall op_ok ops -> iter_run t alt s ops = list_run l ops.
 Proof. exact iter_run_spec. Qed.
 
-(* bridge: the raw load of the ImageRaw model of property C09 (Model/Imageraw.v, indexed by the bit depth) is this
-   load, so the layout theorems above describe what ImageRaw::pixel and image drawing decode *)
+End AnyUsize.
+
+(* bridge: the raw load of the ImageRaw model of property C09 (Model/Imageraw.v, indexed by the bit depth, 64-bit usize)
+   is this load at the usize64 instance, so the layout theorems above describe what ImageRaw::pixel and image drawing decode *)
 Theorem C11_raw_load_eq_load : forall t alt buf i,
-  bytes_ok buf -> len_ok buf -> 0 <= i -> Imageraw.raw_load (bits t) alt buf i = load t alt buf i.
+  bytes_ok buf -> @len_ok usize64 buf -> 0 <= i -> Imageraw.raw_load (bits t) alt buf i = @load usize64 t alt buf i.
 Proof. exact Imagebridge.raw_load_eq_load. Qed.
 
 (* non-vacuity: the hypotheses are satisfiable and the functions compute the documented values *)
+Section Witness.
+Local Existing Instance usize64.
 Example C11_witness :
   bytes_ok [18; 52; 86] /\ len_ok [18; 52; 86] /\ raw_ok U16 4660 /\
   load U16 true [18; 52; 86] 0 = Some 4660 /\ load U16 false [18; 52; 86] 0 = Some 13330 /\
@@ -163,3 +172,12 @@ Proof.
   split; [vm_compute; congruence|]. split; [vm_compute; split; congruence|].
   repeat split; vm_compute; reflexivity.
 Qed.
+End Witness.
+
+(* the narrower targets: the same model with a 16-bit / 32-bit usize rejects byte offsets beyond ITS usize::MAX *)
+Example C11_witness_16_32 :
+  @load usize16 U32 false [1; 2; 3; 4] 16384 = None /\ @load usize16 U32 false [1; 2; 3; 4] 0 = Some 67305985 /\
+  @load usize32 U16 false [1; 2] 2147483648 = None /\
+  fst (@iter_nth usize16 U8 false (iter_new [5; 6; 7]) 65535) = None /\
+  @iter_run usize16 U8 false (iter_new [5; 6; 7]) [OpNth 1; OpNth 65535; OpNext] = [(Some 6, (1, Some 1)); (None, (0, Some 0)); (None, (0, Some 0))].
+Proof. repeat split; vm_compute; reflexivity. Qed.
